@@ -193,6 +193,17 @@ type Interp struct {
 	ctxCtr          int
 	chanCtr         int
 	renderDepth     int
+	evalAlias       map[int64]*smt.Term
+	varByName       map[string]*smt.Term
+	model           map[string]uint64
+	candModel       map[string]uint64
+	candFor         *smt.Term
+	freshBefore     map[string]bool
+	modelHits       int
+	modelBroken     bool
+	pinned          map[int64]uint64
+	excluded        map[int64]map[uint64]bool
+	leafCache       map[int64]map[uint64]bool
 }
 
 func NewInterp(p *Program, cfg *Config, solver *smt.Solver, prefix []int64) *Interp {
@@ -782,7 +793,14 @@ func (it *Interp) concretize(v IntV, what string, limit int) IntV {
 
 // evalTerm returns the value of t in some model of pc AND extra.
 func (it *Interp) evalTerm(extra *smt.Term, t *smt.Term) (uint64, smt.Result) {
-	alias := smt.Var(fmt.Sprintf("__eval%d", t.ID), t.Sort)
+	if it.evalAlias == nil {
+		it.evalAlias = map[int64]*smt.Term{}
+	}
+	alias := it.evalAlias[t.ID]
+	if alias == nil {
+		alias = smt.Var(fmt.Sprintf("__eval%d", t.ID), t.Sort)
+		it.evalAlias[t.ID] = alias
+	}
 	q := smt.And(extra, smt.Eq(alias, t))
 	res, m, err := it.Solver.Check(q, it.sliceFor(q), []*smt.Term{alias})
 	if err != nil {
